@@ -71,6 +71,15 @@ var Options = []Opt{
 	{"RepeatedPercentDecoding", canonicalizer.WithRepeatedPercentDecoding, false},
 	{"DefaultScheme(http)", func() url.ParserOption { return canonicalizer.WithDefaultScheme("http") }, false},
 	{"DefaultScheme(foo)", func() url.ParserOption { return canonicalizer.WithDefaultScheme("foo") }, false},
+	// option VALUES a caller can legitimately pass but that are not what the option expects
+	{"DefaultScheme(my_app)", func() url.ParserOption { return canonicalizer.WithDefaultScheme("my_app") }, false},
+	{"DefaultScheme(9p:)", func() url.ParserOption { return canonicalizer.WithDefaultScheme("9p:") }, false},
+	{"SpecialSchemes(odd table)", func() url.ParserOption {
+		return url.WithSpecialSchemes(map[string]string{"": "1", "HTTP": "80", "http": "x", "ws": "", "a b": "99999999999999999999", "file": "7"})
+	}, false},
+	{"PostParseHostFunc(odd)", func() url.ParserOption {
+		return url.WithPostParseHostFunc(func(u *url.Url, h string) string { return "/" + h + ":@#" })
+	}, false},
 	{"SortQuery(keys)", func() url.ParserOption { return canonicalizer.WithSortQuery(canonicalizer.SortKeys) }, false},
 	{"SortQuery(parameter)", func() url.ParserOption { return canonicalizer.WithSortQuery(canonicalizer.SortParameter) }, false},
 }
